@@ -260,7 +260,7 @@ def r4(ctx, R):
                 R.bad(f, c, "property mask `%s` is not a constant union of PROP_* bits" % norm(a))
             elif v == 0:
                 R.bad(f, c, "property mask `%s` folds to 0: neither the formula nor the cached flag is changed" % norm(a))
-    R.need(n >= 4, "expected >=4 property-mask sites, found %d" % n)
+    R.need(n >= 2, "expected >=2 property-mask sites, found %d" % n)
     sc = ctx.func("SpaceManager.set_cache")
     c = q.calls(sc, name="set_cells_property")
     R.inst("set_cache passes PROP_CACHE and enable_cache")
